@@ -135,6 +135,9 @@ def run(repo, rep):
     rule_round5(repo, rep, vela, af)
     rule_values_from_file(repo, rep, af)
     rule_reads_go_through_read_config(repo, rep, af)
+    rep.clause("C18-j", "legality tests are membership tests in an explicit collection (not flag containment in a combined IntFlag value)")
+    rep.clause("C18-k", "a bundled section whose name extends another section's name inherits from that section")
+    rule_round7(repo, rep)
 
 
 # ------------------------------------------------------------------ a
@@ -790,3 +793,54 @@ def rule_reads_go_through_read_config(repo, rep, af):
     if n < 4:
         raise AnalysisError(f"uses of self.vela_config: {n}")
     rep.floor("C18-i", 4)
+
+
+def rule_round7(repo, rep):
+    """(j) legality tests of configuration values are membership tests in an explicit collection. `x not in MemArea.Sram | MemArea.Dram` is
+    a flag containment test: MemArea is an IntFlag with consecutive values, Sram | Dram *is* OnChipFlash, and containment is true for all
+    three. (k) a bundled section whose name extends another section's name (Dedicated_Sram_512KB / Dedicated_Sram) inherits from it: the
+    name is what the documentation and the user select by."""
+    import os as _os
+    import re as _re
+
+    af = repo.mod("architecture_features")
+    n = 0
+    for q, fn in af.functions.items():
+        for c in ast.walk(fn):
+            if isinstance(c, ast.Compare) and len(c.ops) == 1 and isinstance(c.ops[0], (ast.In, ast.NotIn)):
+                r = c.comparators[0]
+                n += 1
+                rep.check(not (isinstance(r, ast.BinOp) and isinstance(r.op, (ast.BitOr, ast.BitAnd, ast.Add))), "C18-j", f"ethosu/vela/architecture_features.py:{q}",
+                          f"`{str(norm(c))[:70]}` tests membership in a collection", f"the right operand `{str(norm(r))[:50]}` is one combined flag value: for MemArea (IntFlag, Sram=1, Dram=2, OnChipFlash=3) "
+                          "Sram | Dram equals OnChipFlash and flag containment accepts it: an arena on OnChipFlash passes the check")
+    if n < 5:
+        raise AnalysisError(f"architecture_features: {n} membership tests")
+    ini = _os.path.join(repo.root, "ethosu", "config_files", "Arm", "vela.ini")
+    if not _os.path.exists(ini):
+        raise AnalysisError("ethosu/config_files/Arm/vela.ini not found")
+    sections = {}
+    cur = None
+    for ln in open(ini):
+        ln = ln.strip()
+        mm = _re.fullmatch(r"\[(.+)\]", ln)
+        if mm:
+            cur = mm.group(1)
+            sections[cur] = {}
+        elif cur and "=" in ln and not ln.startswith((";", "#")):
+            k, v = ln.split("=", 1)
+            sections[cur][k.strip()] = v.strip()
+    k_ = 0
+    for name in sections:
+        bases = [b for b in sections if b != name and name.startswith(b + "_")]
+        for b in bases:
+            k_ += 1
+            chain = []
+            x = name
+            while x in sections and "inherit" in sections[x] and x not in chain:
+                chain.append(x)
+                x = sections[x]["inherit"]
+            chain.append(x)
+            rep.check(b in chain[1:], "C18-k", f"ethosu/config_files/Arm/vela.ini:[{name}]", f"[{name}] inherits from [{b}], whose name it extends",
+                      f"inherit chain {chain}: the documented '{name.split('.')[-1]}' mode resolves to the memory areas of another mode (arena in Sram, no dedicated cache limit)")
+    if k_ < 1:
+        raise AnalysisError("vela.ini: no section extends another section's name")
